@@ -141,9 +141,13 @@ package mq
 //@     invariant 0 <= b.i && b.data == data
 //@     decreases len(data) - b.i
 //@ func (*SubAck).UnmarshalBinary
+//@   -- decoding is specified for receivers as ReadPacket creates them (empty
+//@   -- strings): an empty string in the frame keeps the old field value and
+//@   -- the cursor then advances by the width of that stale value
+//@   requires len(p.reasonString) == 0
 //@   assigns $heap
 //@   loop 0:
-//@     invariant 0 <= b.i && -1 <= rangeindex
+//@     invariant 0 <= b.i && -1 <= rangeindex && len(p.reasonString) <= 65535
 //@     decreases len(p.reasonCodes) - rangeindex
 //@ func (*Unsubscribe).UnmarshalBinary
 //@   assigns $heap
@@ -151,9 +155,10 @@ package mq
 //@     invariant 0 <= b.i && b.data == data
 //@     decreases len(data) - b.i
 //@ func (*UnsubAck).UnmarshalBinary
+//@   requires len(p.reasonString) == 0
 //@   assigns $heap
 //@   loop 0:
-//@     invariant 0 <= b.i && -1 <= rangeindex
+//@     invariant 0 <= b.i && -1 <= rangeindex && len(p.reasonString) <= 65535
 //@     decreases len(p.reasonCodes) - rangeindex
 //@ func (*PingReq).UnmarshalBinary
 //@   assigns $heap
